@@ -523,10 +523,12 @@ pub fn replay_case(
         // rightly opens)
         let other_forms: Vec<String> = others.values().flat_map(|o| forms(o)).collect();
         toks.retain(|t| *t != tok && !other_forms.contains(t));
-        if toks.len() > cfg.max_tokens {
+        // tokens with a very long footer (64 KiB pairs) cost ~100x per presentation: fewer of them
+        let max_tokens = if tok.len() > 20000 { cfg.max_tokens.min(1500) } else { cfg.max_tokens };
+        if toks.len() > max_tokens {
             // deterministic thinning that keeps the first and last elements
-            let step = toks.len() as f64 / cfg.max_tokens as f64;
-            toks = (0..cfg.max_tokens).map(|i| toks[(i as f64 * step) as usize].clone()).collect();
+            let step = toks.len() as f64 / max_tokens as f64;
+            toks = (0..max_tokens).map(|i| toks[(i as f64 * step) as usize].clone()).collect();
         }
     }
     let msg = &inst.msgs[&case.mint.m];
